@@ -922,8 +922,9 @@ func (c *wsConn) handleWsConn(ctx context.Context) {
 			if err := c.conn.Close(); err != nil {
 				log.Warnw("timed-out websocket close error", "error", err)
 			}
+			remote := c.conn.RemoteAddr()
 			c.writeLk.Unlock()
-			log.Errorw("Connection timeout", "remote", c.conn.RemoteAddr(), "lastAction", action)
+			log.Errorw("Connection timeout", "remote", remote, "lastAction", action)
 			// The server side does not perform the reconnect operation, so need to exit
 			if c.connFactory == nil {
 				return
